@@ -149,6 +149,8 @@ pub struct Split {
     input: KString,
     pattern: KString,
     start: usize,
+    // True after the first search, an empty pattern must not match twice at the same position
+    started: bool,
 }
 
 impl Split {
@@ -158,6 +160,7 @@ impl Split {
             input,
             pattern,
             start: 0,
+            started: false,
         }
     }
 }
@@ -174,13 +177,24 @@ impl Iterator for Split {
     fn next(&mut self) -> Option<Self::Item> {
         let start = self.start;
         if start <= self.input.len() {
-            let end = match self.input[start..].find(self.pattern.as_str()) {
-                Some(end) => start + end,
-                None => self.input.len(),
+            let remaining = &self.input[start..];
+            let found = if !self.pattern.is_empty() {
+                remaining.find(self.pattern.as_str())
+            } else if !self.started {
+                Some(0)
+            } else {
+                // Like `str::split`, an empty pattern matches after each character
+                remaining.chars().next().map(|c| c.len_utf8())
+            };
+            self.started = true;
+
+            let (end, next_start) = match found {
+                Some(end) => (start + end, start + end + self.pattern.len()),
+                None => (self.input.len(), self.input.len() + 1),
             };
 
             let output = KValue::Str(self.input.with_bounds(start..end).unwrap());
-            self.start = end + self.pattern.len();
+            self.start = next_start;
             Some(Output::Value(output))
         } else {
             None
